@@ -243,6 +243,7 @@ ASMJIT_FAVOR_SIZE Error EmitHelper::emit_arg_move(
   uint32_t src_size = TypeUtils::size_of(src_type_id);
 
   InstId inst_id = Inst::kIdNone;
+  bool is_scalar_cvt = false;
 
   // Not a real loop, just 'break' is nicer than 'goto'.
   for (;;) {
@@ -383,7 +384,8 @@ ASMJIT_FAVOR_SIZE Error EmitHelper::emit_arg_move(
       if (dst_scalar_id == TypeId::kFloat32 && src_scalar_id == TypeId::kFloat64) {
         src_size = Support::min(dst_size * 2, src_size);
         dst_size = src_size / 2;
-        inst_id = (src_size <= 8) ? ids().cvtss2sd() : ids().cvtps2pd();
+        is_scalar_cvt = (src_size <= 8);
+        inst_id = is_scalar_cvt ? ids().cvtsd2ss() : ids().cvtpd2ps();
 
         if (dst_size == 32) {
           dst.set_signature(Reg::signature_of_t<RegType::kVec256>());
@@ -397,7 +399,8 @@ ASMJIT_FAVOR_SIZE Error EmitHelper::emit_arg_move(
       if (dst_scalar_id == TypeId::kFloat64 && src_scalar_id == TypeId::kFloat32) {
         src_size = Support::min(dst_size, src_size * 2) / 2;
         dst_size = src_size * 2;
-        inst_id = (src_size <= 4) ? ids().cvtsd2ss() : ids().cvtpd2ps();
+        is_scalar_cvt = (src_size <= 4);
+        inst_id = is_scalar_cvt ? ids().cvtss2sd() : ids().cvtps2pd();
 
         dst.set_signature(RegUtils::signature_of_vec_by_size(dst_size));
         if (src.is_reg() && src_size >= 32) {
@@ -444,6 +447,12 @@ ASMJIT_FAVOR_SIZE Error EmitHelper::emit_arg_move(
     src.as<Mem>().set_size(src_size);
 
   _emitter->set_inline_comment(comment);
+
+  // AVX versions of scalar conversions have three operands - the first source provides the upper part of the result.
+  if (is_scalar_cvt && _avx_enabled) {
+    return _emitter->emit(inst_id, dst, dst, src);
+  }
+
   return _emitter->emit(inst_id, dst, src);
 }
 
